@@ -317,6 +317,7 @@ class ParserEngine(ParserCore, CanParse):
         expression = Undefined
         result = literal
         passes = 0
+        interpolated = False
         while result != expression:
             expression = result
             if not isinstance(expression, str):
@@ -340,8 +341,12 @@ class ParserEngine(ParserCore, CanParse):
             try:
                 fstr_expression = f'''f{expression!r}'''
 
-                if is_eval_safe(fstr_expression, context):
+                # note: text that was interpolated holds values taken from
+                #   the input: interpolating it again lets '{n}{n}' bound
+                #   to n double the text on every pass
+                if not interpolated and is_eval_safe(fstr_expression, context):
                     result = safe_eval(fstr_expression, context)
+                    interpolated = result != expression
 
                 if result == expression and is_eval_safe(expression, context):
                     # NOTE: No f'{xyz}' evaluations occurred
